@@ -192,7 +192,7 @@ def generate(tier, out_rs, out_meta, arith_group=3, lex_group=6):
         for i, (t, ig, sp) in enumerate(g):
             specs = ", ".join(spec_rs(x) for x in sp)
             L.append(
-                f"        {i} => check_lex(len, {rust_bytes(t)}, {'true' if ig else 'false'}, &[{specs}]),"
+                f"        {i} => check_lex(len, &{rust_bytes(t + bytes([0, 0]))}[..{len(t)}], {'true' if ig else 'false'}, &[{specs}]),"
             )
         L.append("        _ => kani::assume(false),")
         L.append("    }")
